@@ -13,7 +13,9 @@ READY = True
 RULE = ("cases drawn from one PRNG (VERIF_SEED): a history of dispatch / abort / drop-handle / complete(k, r) / "
         "poll(k) / clear / run-until-idle(pick order) events over one ArcAction, Action, local ArcAction, local "
         "Action, leptos_server ArcServerAction or ServerAction over a mock ServerFn (variant 0..5; the server wrappers are "
-        "dispatched through their own methods; negative results are Err(ServerError)) or one ArcMultiAction / "
+        "dispatched through their own methods; negative results are Err(ServerError); a quarter of the single-action cases "
+        "start from an initial value: the …_with_value constructors, or for the server wrappers a ServerActionError context "
+        "with the function's own path / an undecodable payload / another path) or one ArcMultiAction / "
         "ArcServerMultiAction / ServerMultiAction (dispatch / dispatch_sync / cancel / complete / poll / run). "
         "Futures are oneshot receivers completed by the history; tasks are polled only when the history says so, in "
         "the order it says. Shapes: free mixes, abort-vs-completion races (abort and completion both delivered "
@@ -23,7 +25,7 @@ RULE = ("cases drawn from one PRNG (VERIF_SEED): a history of dispatch / abort /
 TRUSTED = [
     "Coq 8.16.1 kernel (coqc); no axioms: every theorem of Properties_C17.v is 'Closed under the global context'",
     "extraction to OCaml with ExtrOcamlBasic only, ocamlfind ocamlopt 4.13.1, extract/driver.ml sexp I/O",
-    "harness/rx2 (Rust): src/exec.rs single-threaded executor installed through any_spawner::Executor::init_local_custom_executor "
+    "harness/rx2 (Rust): src/exec.rs single-threaded executor installed through any_spawner::Executor::init_custom_executor "
     "(ready set exposed, tasks polled only on request), src/c17.rs driving the real ArcAction / Action / ArcMultiAction through "
     "their public API with futures::channel::oneshot-controlled action futures",
     "modelled, not verified: futures::select_biased! (first ready branch in textual order; a oneshot receiver whose sender was "
@@ -31,7 +33,8 @@ TRUSTED = [
     "signal primitives ArcRwSignal::update / ArcStoredValue::get_value (plain cells here)",
     "leptos_server/src/{action,multi_action}.rs: ArcServerAction / ServerAction / ArcServerMultiAction / ServerMultiAction are "
     "driven through their own methods over a mock server function (harness/rx2/src/srvfn.rs: custom Protocol and Client, "
-    "BrowserMockServer); the restore-from-URL path (ServerActionError context) is not exercised",
+    "BrowserMockServer); the restore-from-URL path is exercised from ServerFnUrlError::to_url's query pairs through a "
+    "ServerActionError context to the wrapper's constructor (the router code that reads the query is not)",
 ]
 ASSUMPTIONS = [
     "single-threaded executor, atomic polls (the cross-thread windows belong to C19)",
@@ -115,17 +118,40 @@ def gen_overlap(rng):
     return evs + mid + [[5, [rng.randint(0, 5) for _ in range(3)]]]
 
 
+def with_restore(rng, case):
+    """a quarter of the single-action cases start from an initial value: `…_with_value(Some(r), …)` for the plain
+    variants; for the server wrappers a ServerActionError context (p = 1: this function's path with the URL-encoded
+    error r < 0; 2: this path, undecodable payload; 0: another function's path), the way a failed no-JS form post is
+    restored. The history then starts with an empty run-until-idle so that the initial state is observed."""
+    if rng.random() >= 0.25:
+        return case
+    v = case[1]
+    if v >= 4:
+        p = rng.choice([1, 1, 1, 2, 0])
+        r = -rng.randint(2, 99)
+    else:
+        p, r = 1, rng.choice([rng.randint(1, 99), -rng.randint(2, 99)])
+    return [0, v, [[5, []]] + case[2], [p, r]]
+
+
+def restored_value(case):
+    if len(case) < 4 or not case[3]:
+        return None
+    p, r = case[3]
+    return r if p == 1 else (-1000001 if p == 2 else None)
+
+
 def generate(rng, tier):
     n = N_QUICK if tier == "quick" else N_THOROUGH
     for _ in range(n):
         r = rng.random()
         if r < 0.45:
             v = rng.randint(0, 5)
-            yield dict(case=[0, v, gen_events(rng)], kind="single-free")
+            yield dict(case=with_restore(rng, [0, v, gen_events(rng)]), kind="single-free")
         elif r < 0.65:
-            yield dict(case=[0, rng.randint(0, 5), gen_race(rng)], kind="abort-race")
+            yield dict(case=with_restore(rng, [0, rng.randint(0, 5), gen_race(rng)]), kind="abort-race")
         elif r < 0.78:
-            yield dict(case=[0, rng.randint(0, 5), gen_overlap(rng)], kind="overlap")
+            yield dict(case=with_restore(rng, [0, rng.randint(0, 5), gen_overlap(rng)]), kind="overlap")
         else:
             yield dict(case=[1, gen_events(rng, multi=True), rng.randint(0, 2)], kind="multi")
 
@@ -142,11 +168,12 @@ class D:
         self.fin = None         # None | "completed" | "aborted"
 
 
-def ref_single(events):
+def ref_single(events, v0=None):
     """per event: None at non-idle points, else dict(pending, version, value, input_none)"""
     ds = []
     completed = []          # (k, r) in the order the completions were observed
-    last = None             # value according to the text: last completed result, None after clear
+    last = v0               # value according to the text: last completed result, None after clear; the value the
+                            # action was created with as long as neither happened
     out = []
 
     def poll(k):
@@ -258,7 +285,7 @@ def oracle(item, impl):
         return "panic / harness error: " + impl
     if case[0] == 0:
         events = case[2]
-        ref = ref_single(events)
+        ref = ref_single(events, restored_value(case))
         if len(impl) != len(events):
             return "observation count differs from event count"
         prev = (0, None)
@@ -271,6 +298,9 @@ def oracle(item, impl):
                 if ver != want["version"]:
                     return "event %d: version %d, but %d dispatches completed" % (j, ver, want["version"])
                 if val != want["value"]:
+                    if want["version"] == 0 and len(case) > 3 and case[3] and 4 not in [x[0] for x in events[:j + 1]]:
+                        return "event %d: value %r, but the action was created with %r (%s) and nothing completed or cleared it" % (
+                            j, val, want["value"], "ServerActionError context %r" % (case[3],) if case[1] >= 4 else "new_with_value")
                     return "event %d: value %r is not the result of the most recently completed dispatch (%r)" % (
                         j, val, want["value"])
                 if not want["pending"] and inp is not None:
@@ -320,6 +350,13 @@ def describe(it):
                 "ServerAction::dispatch (mock server fn; negative = Err)"][case[1] % 6]
         if case[0] == 2:
             head += " [pre-fix model only]"
+        if len(case) > 3 and case[3]:
+            p, r = case[3]
+            if case[1] >= 4:
+                head += " created under a ServerActionError context (%s)" % (
+                    ["another function's path", "its own path, error %d" % r, "its own path, undecodable payload"][p])
+            else:
+                head += " created with value Some(%d)" % r
     names = dict(NAMES)
     if case[0] == 1:
         names[1] = "cancel"
@@ -358,8 +395,16 @@ def valid_case(item):
     case = item["case"]
     try:
         if case[0] in (0, 2):
-            if len(case) != 3 or not isinstance(case[1], int) or not 0 <= case[1] <= 5:
+            if len(case) not in (3, 4) or not isinstance(case[1], int) or not 0 <= case[1] <= 5:
                 return False
+            if len(case) == 4 and case[3] != []:
+                rs = case[3]
+                if case[0] == 2 or not (isinstance(rs, list) and len(rs) == 2 and all(isinstance(x, int) for x in rs)):
+                    return False
+                if rs[0] not in ((0, 1, 2) if case[1] >= 4 else (1,)):
+                    return False
+                if case[1] >= 4 and rs[1] >= 0:
+                    return False
             evs, multi = case[2], False
         elif case[0] == 1:
             if len(case) not in (2, 3) or (len(case) == 3 and case[2] not in (0, 1, 2)):
